@@ -153,6 +153,14 @@ def _impl(tier, seed, search):
                 for nm_, got_ in (('UQ.interp', r[0]), ('slerp', r[1])):
                     gq = got_ if np.dot(got_, wantm) >= 0 else -np.asarray(got_)
                     L.close(f'{nm_}:constant-rate(moderate)', gq, wantm, 1e-7, 1.0, dict(q0=q0, q1=qm1, s=sm, rel_angle=thm), what=f'{nm_} does not turn through s times the relative angle', sig=f'{nm_}:constant-rate')
+        # the one-quaternion form (from the identity) with shortest=True for a quaternion with negative scalar part: the short way round,
+        # the same rotation as the two-quaternion form from the identity, slerp and the matrix interpolators give
+        qneg_ = np.asarray(inputs.unitq(g), float); qneg_ = qneg_ if qneg_[0] < -0.05 else np.r_[-abs(qneg_[0]) - 0.05, qneg_[1:]]; qneg_ = qneg_ / np.linalg.norm(qneg_); s1_ = float(g.choice([0.25, 0.6, 0.5]))
+        ok, r = L.noraise('UQ.interp(s, shortest) from the identity', lambda: (UnitQuaternion(qneg_, norm=False).interp(s1_, shortest=True).R, UnitQuaternion().interp(s1_, dest=UnitQuaternion(qneg_, norm=False), shortest=True).R,
+                                                                                 b.q2r(b.slerp([1.0, 0, 0, 0], qneg_, s1_, shortest=True)), b.trinterp(None, b.q2r(qneg_), s1_)), dict(q=qneg_, s=s1_), 'UnitQuaternion.interp(s, shortest=True) without dest')
+        if ok:
+            for nm_, got_ in (('two-quaternion form', r[1]), ('slerp', r[2]), ('trinterp(None, R, s)', r[3])):
+                L.close(f'UQ.interp(s,shortest)={nm_}', r[0], got_, TOL, 1.0, dict(q=qneg_, s=s1_), what=f'UnitQuaternion.interp(s, shortest=True) without dest differs from the {nm_} for a quaternion with negative scalar part', sig='UQ.interp(no dest, shortest)')
         # the destination on the opposite hemisphere (negative inner product) without shortest: the long arc, at constant rate, exactly as slerp does
         for shortest in (False, True):
             qn = dict(q0=q0, q1=-q1, s=s, shortest=shortest, rel_angle=th)
